@@ -104,58 +104,51 @@ def r1(ctx, R):
                     R.bad(f_, c, "auto-namer is given `%s`: an auto-generated name can equal an existing reference or child "
                                  "space (or cells) of the same space" % a0)
     R.need(n_auto >= 3, "expected >=3 auto-naming sites, found %d" % n_auto)
-    # _can_add truth table
+    # _can_add: decision structure
     ca = ctx.func("SharedSpaceOperations._can_add")
-    R.inst("_can_add truth table (is model, name visible, name in a sub, same kind)")
+    R.inst("_can_add: model -> name not visible; name visible in the parent -> only a non-member; else every sub agrees in kind")
     rets = q.returns(ca)
 
-    def which(is_model, in_ns, sub_none, same):
+    def which(is_model, in_ns):
         def oc(e):
             t = norm(e)
             if t == "parent is self.model":
                 return "T" if is_model else "F"
             if t == "name in parent.namespace":
                 return "T" if in_ns else "F"
-            if t == "sub is None":
-                return "T" if sub_none else "F"
-            if t == "isinstance(sub, klass)":
-                return "T" if same else "F"
             return None
         reached = q.run_abstract(ca, oc)
-        return sorted({norm(r_.value) for r_ in rets for i in q.nodes_for(ca, r_) if i in reached})
-    want = {
-        (True, False, True, True): ["name not in parent.namespace"],
-        (True, True, True, True): ["name not in parent.namespace"],
-        (False, True, True, True): ["not isinstance(parent._namespace.fresh[name], Impl)"],
-        (False, False, True, False): ["True"],
-        (False, False, False, True): ["True"],
-        (False, False, False, False): ["False"],
-    }
+        return sorted({" ".join(norm(r_.value).split()) for r_ in rets for i in q.nodes_for(ca, r_) if i in reached})
+    ALL_SUBS = "all((isinstance(sub, klass) for sub in self._iter_name_in_subs(parent, name, skip_self=True)))"
+    want = {(True, False): ["name not in parent.namespace"], (True, True): ["name not in parent.namespace"],
+            (False, True): ["not isinstance(parent._namespace.fresh[name], Impl)"], (False, False): [ALL_SUBS]}
     table = {}
     for k, v in want.items():
         got = which(*k)
-        table["model=%s,visible=%s,sub_none=%s,same_kind=%s" % k] = got
+        table["model=%s,visible=%s" % k] = got
         if got != v:
-            R.bad(ca, ca.node, "_can_add%s returns %s, required %s" % (k, got, v), stmt="truth table %s" % (k,))
+            if k == (False, False):
+                R.bad(ca, ca.node, "for a name not yet visible in the parent, _can_add does not require *every* sub space that "
+                                   "knows the name to hold the same kind of object (got %s)" % got, stmt="_can_add subs")
+            else:
+                R.bad(ca, ca.node, "_can_add%s returns %s, required %s" % (k, got, v), stmt="_can_add %s" % (k,))
     R.slot("_can_add", table)
-    fs = q.calls(ca, name="_find_name_in_subs")
-    R.inst("_can_add searches the subs of the parent (skip_self)")
-    if len(fs) != 1 or [norm(a) for a in fs[0].args[:2]] != ["parent", "name"]:
-        R.bad(ca, ca.node, "_can_add does not look the name up in the sub spaces", stmt="_find_name_in_subs")
-    fn = ctx.func("SharedSpaceOperations._find_name_in_subs")
-    R.inst("_find_name_in_subs iterates over _get_subs(parent) and tests the sub's namespace")
-    lp = [n for n in walk_local(fn.node) if isinstance(n, ast.For)]
-    if not lp or call_name(lp[0].iter) != "_get_subs" or not any(
-            norm(n.ast) == "name in %s.namespace" % norm(lp[0].target) for n in fn.cfg.nodes if n.kind == "test"):
-        R.bad(fn, fn.node, "sub spaces are not searched for the name", stmt="for subspace in _get_subs")
+    it = ctx.func("SharedSpaceOperations._iter_name_in_subs")
+    R.inst("_iter_name_in_subs yields the object of every sub space whose namespace has the name")
+    lp = [n for n in walk_local(it.node) if isinstance(n, ast.For)]
+    ys = [n for n in walk_local(it.node) if isinstance(n, ast.Yield)]
+    if not lp or call_name(lp[0].iter) != "_get_subs" or not ys or \
+            q.guards_of(it, ys[0]) != {("name in %s.namespace" % norm(lp[0].target), "T")} or \
+            any(isinstance(x, (ast.Break, ast.Return)) for x in ast.walk(lp[0])):
+        R.bad(it, it.node, "not every sub space is searched for the name", stmt="for subspace in _get_subs: yield")
     # new_ref
     nr = ctx.func("SpaceManager.new_ref")
-    R.inst("new_ref: a non-reference or non-global of that name in a sub is refused before creation")
+    R.inst("new_ref: a non-reference or non-global of that name in *any* sub is refused before creation")
     cr = q.calls(nr, name="on_create_ref")
-    fnd = q.calls(nr, name="_find_name_in_subs")
-    rs = q.raises(nr, "ValueError")
-    if not fnd or len(rs) < 2 or not cr:
-        R.bad(nr, nr.node, "new_ref has no clash test against the sub spaces", stmt="_find_name_in_subs")
+    lps = [n for n in walk_local(nr.node) if isinstance(n, ast.For) and call_name(n.iter) == "_iter_name_in_subs"]
+    rs = [r_ for r_ in q.raises(nr, "ValueError") if lps and any(r_ is x for x in ast.walk(lps[0]))]
+    if not lps or len(rs) < 2 or not cr:
+        R.bad(nr, nr.node, "new_ref does not test every sub space for a clashing name", stmt="for other in _iter_name_in_subs")
     else:
         for r_ in rs:
             if any(q.path_between(nr, c, r_) for c in cr):
@@ -163,6 +156,8 @@ def r1(ctx, R):
         g = [q.guards_of(nr, r_) for r_ in rs]
         if not any(("isinstance(other, ReferenceImpl)", "F") in x for x in g):
             R.bad(nr, rs[0], "a cells or space of that name in a sub is not refused")
+        if any(isinstance(x, ast.Break) for x in ast.walk(lps[0])):
+            R.bad(nr, lps[0], "the clash test stops at the first sub space")
     # ModelImpl.set_attr
     ms = ctx.func("ModelImpl.set_attr")
     R.inst("ModelImpl.set_attr refuses the name of a space")
@@ -177,35 +172,45 @@ def r1(ctx, R):
                                                       and ("self.refs[name].parent is self.model", "T") in g)
         if not ok:
             R.bad(us, c, "a reference can be created over an existing cells/space name")
-    # add_bases
-    ab = ctx.func("SpaceUpdater.add_bases")
-    rs = q.raises(ab, "NameError")
-    ex = q.calls(ab, name="execute", recv_endswith="_instructions")
-    R.inst("add_bases: member-name conflict test is live and precedes the first instruction")
+    # add_bases / new_space: member-name conflict over the linearisation
+    ck = ctx.func("SpaceUpdater._check_name_conflict")
+    rs = q.raises(ck, "NameError")
+    R.inst("_check_name_conflict: live pairwise test over spaces, cells and refs along the given MRO")
     if not rs:
-        R.bad(ab, ab.node, "add_bases has no member-name conflict test", stmt="raise NameError")
+        R.bad(ck, ck.node, "no member-name conflict test", stmt="raise NameError")
     else:
         r_ = rs[0]
-        guards = [t for t, l in q.guards_of(ab, r_) if l == "T"]
-        dead = [t for t in guards if t.isidentifier() and provably_empty(ab, t, ctx.repo)]
+        guards = [t for t, l in q.guards_of(ck, r_) if l == "T"]
+        dead = [t for t in guards if t.isidentifier() and provably_empty(ck, t, ctx.repo)]
         if dead:
-            R.bad(ab, r_, "the conflict test is vacuous: `%s` is provably empty, the raise is dead code; a base "
+            R.bad(ck, r_, "the conflict test is vacuous: `%s` is provably empty, the raise is dead code; a base "
                           "whose cells clashes with a reference or child space of the sub is accepted" % dead[0])
-        if ex and not q.dominated(ab, [n for n in walk_local(ab.node) if isinstance(n, ast.If) and r_ in n.body] or [r_], ex[0]) \
-                and not any(not q.path_between(ab, ex[0], r_) for _ in [0]):
-            pass
-        if ex and q.path_between(ab, ex[0], r_):
-            R.bad(ab, r_, "conflict is detected only after members were already re-derived")
-        kinds = [n for n in walk_local(ab.node) if isinstance(n, ast.List) and
+        kinds = [n for n in walk_local(ck.node) if isinstance(n, ast.List) and
                  all(isinstance(e, ast.Constant) for e in n.elts) and {e.value for e in n.elts} >= {"cells", "spaces"}]
-        R.inst("add_bases: conflict test spans spaces, cells and references of the whole MRO of every descendant")
         if not kinds or {e.value for e in kinds[0].elts} != {"spaces", "cells", "refs"}:
-            R.bad(ab, ab.node, "conflict test does not compare spaces, cells and refs", stmt="kinds")
-        loops = [n for n in walk_local(ab.node) if isinstance(n, ast.For) and "descendants" in norm(n.iter)]
-        if not any(r_ in list(ast.walk(l)) for l in loops):
-            R.bad(ab, r_, "conflict test is not evaluated for every descendant of the edited space")
-        if not any(isinstance(n, ast.For) and norm(n.iter) == "mro" for n in walk_local(ab.node)):
-            R.bad(ab, ab.node, "conflict test does not collect the names along the MRO", stmt="for sname in mro")
+            R.bad(ck, ck.node, "conflict test does not compare spaces, cells and refs", stmt="kinds")
+        if not any(isinstance(n, ast.For) and norm(n.iter) == "mro" for n in walk_local(ck.node)):
+            R.bad(ck, ck.node, "conflict test does not collect the names along the MRO", stmt="for sname in mro")
+        # pairwise: the accumulated set is built from intersections of two name sets
+        aug = [n for n in walk_local(ck.node) if isinstance(n, ast.AugAssign) and isinstance(n.value, ast.BinOp)
+               and isinstance(n.value.op, ast.BitAnd)]
+        if not aug and not dead:
+            R.bad(ck, r_, "conflict is not the pairwise intersection of the name sets", stmt="pairwise")
+    ab = ctx.func("SpaceUpdater.add_bases")
+    ex = q.calls(ab, name="execute", recv_endswith="_instructions")
+    cc = q.calls(ab, name="_check_name_conflict")
+    R.inst("add_bases: conflict test for the space and every descendant, before the first instruction")
+    loops = [n for n in walk_local(ab.node) if isinstance(n, ast.For) and "descendants" in norm(n.iter)]
+    if not cc or not any(cc[0] is x for l in loops for x in ast.walk(l)) or "get_mro(desc)" not in norm(cc[0]):
+        R.bad(ab, ab.node, "add_bases does not test the members of every descendant for conflicts", stmt="_check_name_conflict(get_mro(desc))")
+    elif ex and q.path_between(ab, ex[0], cc[0]):
+        R.bad(ab, cc[0], "conflict is detected only after members were already re-derived")
+    ns = ctx.func("SpaceUpdater.new_space")
+    cc = q.calls(ns, name="_check_name_conflict")
+    mk = q.calls(ns, name="UserSpaceImpl")
+    R.inst("new_space: members of the bases (and the refs argument) are tested for conflicts before the space exists")
+    if not cc or not mk or not q.dominated(ns, cc, mk[0]) or "get_mro(node)" not in norm(cc[0]) or "refs" not in norm(cc[0]):
+        R.bad(ns, ns.node, "new_space(bases=[...]) accepts bases whose members clash in kind", stmt="_check_name_conflict in new_space")
     isi = ctx.func("ItemSpaceImpl.__init__")
     R.inst("ItemSpaceImpl.__init__: explicit name must be free in the parent")
     rs = q.raises(isi, "ValueError")
